@@ -27,6 +27,7 @@ func c07Table() []GuardReq {
 	}
 	add(req("v2-revision-number", V2T, rev+".Revision.RevisionNumber", lowerOrEq, cur("RevisionNumber"), "accepted revisions never lower the revision number (compared with the contract as it currently stands)"))
 	add(req("v2-revision-missed-host", V2T, rev+".Revision.MissedHostValue", opGT, cur("MissedHostValue"), "a v2 revision never raises the host's missed value"))
+	add(req("v2-revision-missed-host-cap", V2T, rev+".Revision.MissedHostValue", opGT, rev+".Revision.HostOutput.Value", "from the ephemeral-output fix height on, a revision's missed host value never exceeds its own valid host value (an expiry never pays more than the contract holds)", "%CH% >= %NET%.HardforkV2.EphemeralOutputHeight"))
 	add(req("v2-revision-collateral", V2T, rev+".Revision.TotalCollateral", opNE, cur("TotalCollateral"), "a v2 revision never alters total collateral"))
 	for _, fc := range []string{"%T2%.FileContracts[*]", "%T2%.FileContractResolutions[*].Resolution.(types.V2FileContractRenewal).NewContract"} {
 		id := "new"
